@@ -1463,7 +1463,7 @@ def run_py(reqs, tag="py"):
 
 def check_c13(ctx):
     rep = Report("C13", ctx.tier, ctx.seed)
-    units = make_units(kit.build(ctx.tier))
+    units = make_units(kit.build(ctx.tier) + builder_descs(ctx.tier, ctx.seed, 'pyclean', n=64 if ctx.tier == 'quick' else 600))
     compile_units(ctx.driver(), units, ["analyze", "python"])
     mods = prepare_python(ctx, units)
     jobs = []
@@ -1649,7 +1649,7 @@ def run_cxx(bins, reqs, tag="cxx"):
 
 def check_c14(ctx):
     rep = Report("C14", ctx.tier, ctx.seed)
-    units = make_units(kit.build(ctx.tier))
+    units = make_units(kit.build(ctx.tier) + builder_descs(ctx.tier, ctx.seed, 'cxxclean', n=96 if ctx.tier == 'quick' else 800))
     compile_units(ctx.driver(), units, ["analyze", "cxx"])
     jobs = []
     for k, u in enumerate(units):
@@ -1877,7 +1877,7 @@ def run_java(cls, reqs, tag="java"):
 
 def check_c19(ctx):
     rep = Report("C19", ctx.tier, ctx.seed)
-    units = make_units(kit.build(ctx.tier))
+    units = make_units(kit.build(ctx.tier) + builder_descs(ctx.tier, ctx.seed, 'javaclean', n=256 if ctx.tier == 'quick' else 2000))
     compile_units(ctx.driver(), units, ["analyze"])
     jobs = []
     for k, u in enumerate(units):
@@ -2384,7 +2384,8 @@ def cxx_syntax_ok(units, info):
 def norm_msg(m):
     import re
     m = re.sub(r"`[^`]*`", "`X`", m or "")
-    m = re.sub(r"\"[^\"]*\"", '"X"', m)
+    if not m.startswith("Could not parse code"):        # (the rust generator's own parse error: the text says what)
+        m = re.sub(r"\"[^\"]*\"", '"X"', m)
     m, _, at = m.partition(" @")          # the driver appends the panicking source file
     return re.sub(r"[0-9]+", "N", m)[:90] + ((" @" + at) if at else "")
 
